@@ -187,6 +187,22 @@ def rowCountProblems (root : PNode) (groups : List (List ORow)) : List (String Ã
     if own.length = expectedRows fs then none
     else some ("C04", s!"{own.length} atomic statements in the table, {expectedRows fs} ways of choosing one alternative per component")
 
+/-- every cell of a row belongs to a column of the table's header (a value written under a name
+    that is no column is never printed) -/
+def headerProblems (o : ObsLine) : List (String Ã— String) :=
+  match o.obs.getObjVal? "res" with
+  | .ok (.arr rs) => rs.toList.flatMap fun r =>
+    let hdr : List String := match r.getObjVal? "hdr" with
+      | .ok (.arr a) => a.toList.filterMap (fun (x : Json) => x.getStr?.toOption)
+      | _ => []
+    let rows := match r.getObjVal? "rows" with | .ok (.arr a) => a.toList.map normRow | _ => []
+    if hdr.isEmpty then [] else
+    rows.flatMap fun row => row.filterMap fun (k, v) =>
+      if hdr.contains k || k = "Statement ID" || k = "Logical Linkage (Components)" || k = "Logical Linkage (Statements)"
+         || k = "Statement Annotation" || sTrim v = "" then none
+      else some ("C06", s!"row {cell row "Statement ID"}: value '{v}' is stored under '{k}', which is no column of the table")
+  | _ => []
+
 def obsORows (o : ObsLine) : List (List ORow) :=
   (obsGroups o).map (fun g => g)
 
@@ -204,7 +220,7 @@ def judgeTabWith (which : List String) (c : Case) (o : ObsLine) : Verdict :=
     let countProbs := match (o.obs.getObjVal? "parse").toOption.bind (fun pj => (pj.getObjVal? "nodes").toOption) with
       | some (.arr #[n]) => (match nodeOfJson n with | .ok pn => rowCountProblems pn (obsORows o) ++ wandContentProblems pn (obsORows o) | .error _ => [])
       | _ => []
-    match (tableProblems (obsORows o) ++ countProbs).filter (fun p => which.contains p.1) with
+    match (tableProblems (obsORows o) ++ countProbs ++ headerProblems o).filter (fun p => which.contains p.1) with
     | [] => .ok
     | (p, d) :: _ => .violation s!"{p} oracle on the implementation's table" d
   | v => v
@@ -313,6 +329,12 @@ def genTabFamily (tagp : String) (tier : String) (seed : Nat) (both : Bool) : Ar
       out := out.push (mk { ext := false, ann := i % 3 = 0, gs := i % 5 = 0 } "c")
     else
       out := out.push (mk { ext := i % 2 = 0, ann := i % 3 = 0, gs := i % 5 = 0 } "")
+  if tagp = "c06" then
+    -- witness of an open finding: a suffixed operand of a nested-statement combination on a
+    -- property is linked privately; the operand that stays loses its component type
+    let text := "A(actor) D(must) I(act) Bdir1(obj) Bdir,p{ Bdir1,p{A(x) I(y)} [OR] Bdir,p{A(z) I(w)} } Cac{A(q) I(r)}"
+    out := out.push { id := "c06-witness-1", op := "tab", args := tabArgs text "123" { ext := true }, tag := "witness",
+                      note := Json.mkObj [("kf", ("C06-private-link-inside-nested-combination" : Json))] }
   pure out
 
 end Drv
